@@ -7,6 +7,7 @@ import heapq
 import threading
 
 EPOCH = float(2 ** 20)
+STATS = {'runs': 0, 'iterations': 0}
 
 
 class _Selector:
@@ -124,6 +125,8 @@ class VLoop(asyncio.base_events.BaseEventLoop):
 
     def shutdown(self):
         """Cancel everything and drain."""
+        STATS['runs'] += 1
+        STATS['iterations'] += self.iterations
         for _ in range(5):
             ts = self.pending_tasks()
             if not ts:
